@@ -108,7 +108,7 @@ def check_pipe(rec, legs, qconj, sort, bunch):
         rec.violation(sig + ':to_LegCharge', 'charges changed', inp)
 
 
-def check_leg_transforms(rec, leg, rng):
+def check_leg_transforms(rec, leg, rng, others=None):
     from . import gen
     inp = {'mod': leg.chinfo.mod.tolist(), 'qconj': leg.qconj, 'slices': leg.slices.tolist(), 'charges': leg.charges.ravel().tolist()}
     q = qflat_phys(leg)
@@ -141,6 +141,12 @@ def check_leg_transforms(rec, leg, rng):
     rec.check(np.array_equal(qflat_phys(p), q[mask]), 'LegCharge.project:charge-per-index', '', inp)
     e = leg.extend(leg)
     rec.check(np.array_equal(qflat_phys(e), np.concatenate([q, q])), 'LegCharge.extend:charge-per-index', '', inp)
+    for extra in (others or []):
+        # extending by a leg of either direction: the appended indices keep their (physical) charge
+        ee = leg.extend(extra)
+        rec.check(np.array_equal(qflat_phys(ee), np.concatenate([q, qflat_phys(extra)])) and ee.qconj == leg.qconj,
+                  'LegCharge.extend(leg):charge-per-index', f'extra qconj={extra.qconj} charges={extra.charges.ravel().tolist()}',
+                  dict(inp, extra=(extra.qconj, extra.slices.tolist(), extra.charges.ravel().tolist())))
     e2 = leg.extend(2)
     rec.check(np.array_equal(qflat_phys(e2)[:leg.ind_len], q) and e2.ind_len == leg.ind_len + 2, 'LegCharge.extend(int):prefix', '', inp)
 
@@ -160,7 +166,8 @@ def run(rec):
         ch, legs3 = small_legs(mod, 3, 2)
         for li, leg in enumerate(legs3):
             rec.begin(f'C06 leg transforms mod={mod} leg#{li}')
-            rec.guarded('leg-transforms:exception', lambda: check_leg_transforms(rec, leg, rng),
+            others = [legs3[int(x)] for x in rng.integers(0, len(legs3), size=4)]
+            rec.guarded('leg-transforms:exception', lambda: check_leg_transforms(rec, leg, rng, others),
                         {'mod': mod, 'slices': leg.slices.tolist(), 'charges': leg.charges.ravel().tolist()})
             rec.case(('leg', mod, li), leg.block_number >= 2)
             if li % (7 if quick else 1) == 0:
